@@ -35,8 +35,8 @@ def _active_atom(a, want, P=None):
         (a[0] == 'bool' and a[1][0] == 'call' and a[1][1] == LOAD and any(x[0] == 'field' and x[2] == 'active' for x in walk(a[1])) and a[2] is want)
 
 
-def r1_inert_handlers(ctx):
-    ctx.set_rule('C09.R1')
+def r1_inert_handlers(ctx, rule='C09.R1'):
+    ctx.set_rule(rule)
     for key, floor in ((EV + 'handle_message', 1), (EV + 'async_wakeup', 1)):
         f = ctx.anchor(key)
         if not f:
